@@ -1,4 +1,5 @@
 """C05 -- list-valued keys are split into words exactly as systemd splits them."""
+import os
 import itertools, re
 import vlib, sdref
 from vlib import hx, unhx, case_line, show
@@ -182,10 +183,41 @@ def command_level(ctx):
                                  "class": None, "case_hex": cases[i]})
 
 
+INSTALL_WORDS = ["default.target", "dev-mapper-data\\x2dvol.device", "a\\x20b.target", "\"q r.target\"", "tab\\there.target", "\\\\srv.mount", "'s q'.target", "\\u00e9.target"]
+
+
+def install_level(ctx):
+    """[Install] WantedBy= / RequiredBy= / Alias= are plain list keys (escapes kept literally, quotes removed): a real run must create
+    the links under exactly the words systemd's strv splitting gives"""
+    import e2e
+    rng = ctx.rng
+    with e2e.Box() as box:
+        for i in range(ctx.volume(12, 120)):
+            keys = {k: rng.sample(INSTALL_WORDS, rng.randint(1, 3)) for k in ("WantedBy", "RequiredBy", "Alias")}
+            text = "[Container]\nImage=img\n[Install]\n" + "".join("%s=%s\n" % (k, " ".join(ws)) for k, ws in keys.items())
+            root = box.path("inst%d" % i)
+            e2e.make_tree(root, {"u/a.container": text})
+            rc, out, err = e2e.run_quadlet([os.path.join(root, "u")], os.path.join(root, "out"))
+            snap = e2e.snapshot(os.path.join(root, "out"))
+            links = {p for p, v in snap.items() if v[0] == "l"}
+            want = set()
+            for k, ws in keys.items():
+                res = vlib.sd_split_many([" ".join(ws).encode()], "strv")[0] or []
+                for w in res:
+                    if "/" in w:
+                        continue
+                    want.add({"WantedBy": "%s.wants/a.service", "RequiredBy": "%s.requires/a.service", "Alias": "%s"}[k] % w)
+            ctx.evaluations += 1
+            ctx.nontrivial.add(text)
+            ctx.count("install_units")
+            if links != want:
+                ctx.failures.append({"op": "e2e-install", "unit": text, "what": "[Install] %s: links created %s, systemd's word splitting (plain list key) gives %s" % (keys, sorted(links), sorted(want)), "class": None})
+
+
 def run(ctx):
     ctx.rule = ("raw values over {a,SP,\",',\\,n,x,4,1} exhaustively to length 4 (quick) / 6 (thorough) plus random strings of <=12 symbols over a "
                 "34-symbol escape-rich alphabet (incl. VT, FF, NBSP, U+3000, U+2028, U+0085, US: white space that is not a systemd separator) and a hand-written corpus; each through SplitWord and SplitStrv, the extracted spec and the real libsystemd; "
-                "plus 25 (unit type, list-valued key) pairs through the converters: the words systemd would see appear in the command; "
+                "plus 25 (unit type, list-valued key) pairs through the converters: the words systemd would see appear in the command; plus [Install] WantedBy=/RequiredBy=/Alias= words with escapes and quotes in real runs (link names); "
                 "non-trivial = contains a quote or backslash; distinct = distinct (mode, value)")
     use = sdref.available()
     ctx.notes.append("libsystemd second oracle / spec validation: %s" % ("used" if use else "unavailable"))
@@ -194,6 +226,7 @@ def run(ctx):
         check(ctx, S[i:i + 150000], use)
     lookups(ctx, S)
     command_level(ctx)
+    install_level(ctx)
     ctx.exhaustive = True
     ctx.samples = [{"raw": show(s)} for s in S[2:9]] + [{"raw": show(s)} for s in S[-3:]]
     unknown = [f for f in ctx.failures]
@@ -205,6 +238,9 @@ def replay(ctx, obj):
     f = obj.get("failure")
     if not f:
         print("replay: broken-tie record: %s" % obj.get("broken"))
+        return 1
+    if "raw_hex" not in f:
+        print("replay: %s\n%s" % (f.get("unit"), f.get("what")))
         return 1
     s = unhx(f["raw_hex"]).decode()
     check(ctx, [s], sdref.available())
